@@ -1,7 +1,7 @@
 """C01 — answers equal depth-first SLD resolution (structural clauses)."""
 from solver import (outcome_of, emptiness_test, Solver, goal_kinds, real_calls, is_none, some_payload, str_cell, const_false, node_field_writes,
                     NODE_TY)
-from sym import Walker, strip, show, mentions
+from sym import Walker, strip, show, mentions, lookup
 
 EXPLANATION = ("Structural necessary conditions of C01 decided over every CFG path of the solver: substitution sets are "
                "persistent (Freeze type tree, no Rc::get_mut/make_mut/raw access on shared sets, every mutable vector "
@@ -243,25 +243,24 @@ def run(ctx):
         kb1 = ("param", 1, GR.locals[1].get("name") or "")
         ok, why = True, ""
         n = 0
-        for p in Walker(GR, max_visits=2).paths():
+        for p in Walker(GR, max_visits=2, inline=S.inline).paths():
             if p.end != "return":
                 continue
             n += 1
             r = strip(p.ret)
-            # recreate_variables(clone(index(get(kb, name).Some.0, index)))
+            # recreate_variables(clone(kb[name][index]))   (v[i], v.get(i) payload, ... : sym.lookup)
             good = r[0] == "call" and r[1].endswith("recreate_variables")
             if good:
-                src = strip(r[2][0])
-                good = src[0] == "call" and src[1].endswith("::index") and strip(src[2][1]) == ("param", 3, GR.locals[3].get("name") or "")
+                l1 = lookup(r[2][0])
+                good = l1 is not None and l1[1] == ("param", 3, GR.locals[3].get("name") or "")
                 if good:
-                    vec = strip(src[2][0])
-                    good = vec[0] == "field" and vec[2] == "Some.0" and vec[1][0] == "call" and vec[1][1].endswith("::get") and \
-                        strip(vec[1][2][0]) == kb1 and strip(vec[1][2][1]) == ("param", 2, GR.locals[2].get("name") or "")
+                    l2 = lookup(l1[0])
+                    good = l2 is not None and l2[0] == kb1 and l2[1] == ("param", 2, GR.locals[2].get("name") or "")
             if not good:
                 ok, why = False, "get_rule returns %s, not the renamed clause at `index` of the vector stored under the key" % show(r)
         ctx.ob("R3", "get_rule-indexes-key-vector", ok and n > 0, ctx.where(GR), why or "returns rules[index] of kb[key], renamed")
         ok, why, n = True, "", 0
-        for p in Walker(CR, max_visits=2).paths():
+        for p in Walker(CR, max_visits=2, inline=S.inline).paths():
             if p.end != "return":
                 continue
             n += 1
@@ -270,8 +269,8 @@ def run(ctx):
                 continue
             good = r[0] == "call" and r[1].endswith("::len")
             if good:
-                vec = strip(r[2][0])
-                good = vec[0] == "field" and vec[2] == "Some.0" and vec[1][0] == "call" and vec[1][1].endswith("::get")
+                l1 = lookup(("field", strip(r[2][0]), "Some.0")) if strip(r[2][0])[0] == "call" else lookup(r[2][0])
+                good = l1 is not None and l1[0] == ("param", 1, CR.locals[1].get("name") or "")
             if not good:
                 ok, why = False, "count_rules returns %s" % show(r)
         ctx.ob("R3", "count_rules-is-len", ok and n >= 2, ctx.where(CR), why or "returns kb[key].len() or 0")
@@ -283,7 +282,7 @@ def run(ctx):
                                             "::truncate", "::sort", "::reverse", "::retain", "::pop", "::drain",
                                             "::entry", "::extend", "::append", "::swap")):
                 muts.add(nm.split("::")[-1])
-        ctx.ob("R3", "add_rules-appends", muts <= {"push", "insert", "get_mut"} and "push" in muts, ctx.where(AR),
+        ctx.ob("R3", "add_rules-appends", muts <= {"push", "insert", "get_mut", "entry"} and "push" in muts, ctx.where(AR),
                "add_rules mutates the clause vectors with %s (append-only: push / insert of a new vector)" % sorted(muts))
     # ---- R4 ---------------------------------------------------------------
     for nm, F, fps in (("and", A, aps), ("or", O, ops)):
@@ -474,39 +473,44 @@ def run(ctx):
     qp = ("param", 1, FS.locals[1].get("name") or "")
     rp = ("param", 2, FS.locals[2].get("name") or "")
     ok, why, n = True, "", 0
-    for p in Walker(FS, max_visits=3, max_paths=100000).paths():
+    import iters
+    shifts = set()
+    for p in Walker(FS, max_visits=3, max_paths=100000, inline=S.inline).paths():
         if p.end != "return":
             continue
         cur_q = None
         for e in p.calls():
-            if not e["callee"].endswith("::index") or len(e["args"]) != 2:
+            # an element of the query's / the result's argument vector, reached by index or as an iterator item
+            if e["callee"].endswith("::next") and len(e["args"]) == 1:
+                cands = [("field", e["result"], "Some.0")] + [("field", ("field", e["result"], "Some.0"), f) for f in ("0", "1")]
+            elif (e["callee"].endswith("::index") or e["callee"].endswith("::get")) and len(e["args"]) == 2:
+                cands = [e["result"] if e["callee"].endswith("::index") else ("field", e["result"], "Some.0")]
+            else:
                 continue
-            base, idx = strip(e["args"][0]), strip(e["args"][1])
-            from_q = mentions(base, lambda t: t == qp)
-            from_r = mentions(base, lambda t: t == rp)
-            if from_q and not from_r:
-                cur_q = idx
-            elif from_r and not from_q:
-                n += 1
-                if cur_q is None or idx != cur_q:
-                    ok, why = False, "a value is taken from the result at position %s while the variable was found at position %s" % (
-                        show(idx)[:50], show(cur_q)[:50] if cur_q else "?")
-        # ascending from 1: the loop variable comes from a Range starting at 1
-        for e in p.calls():
-            if e["callee"].endswith("::next") and mentions(e["args"][0], lambda t: t[0] == "agg" and t[1].endswith("ops::Range")):
-                rng = [t for t in [strip(e["args"][0])] if True]
-        starts = [dict(v[3]).get("start") for ev_ in p.events if ev_["k"] == "call" for v in [ev_.get("result")]
-                  if isinstance(v, tuple) and v[0] == "agg" and v[1].endswith("ops::Range")]
-    rngs = []
-    for blk in FS.blocks:
-        for st in blk["stmts"]:
-            if st["k"] == "assign" and st["rv"]["k"] == "aggregate" and st["rv"].get("adt", "").endswith("ops::Range"):
-                rngs.append(st["rv"]["ops"][0])
-    start_ok = bool(rngs) and all(o["k"] == "const" and o.get("int") == 1 for o in rngs)
-    rev = any((t["callee"].get("resolved") or t["callee"]["path"]).endswith("::rev") for bb, t in FS.calls())
-    ctx.ob("R8", "answer-text-positions", ok and n > 0 and start_ok and not rev, ctx.where(FS), why or (
+            for c in cands:
+                pos = iters.position(c)
+                if pos is None:
+                    continue
+                base, key = pos
+                from_q = mentions(base, lambda t: t == qp)
+                from_r = mentions(base, lambda t: t == rp)
+                if from_q and not from_r:
+                    cur_q = key
+                elif from_r and not from_q:
+                    n += 1
+                    if cur_q is None or key != cur_q:
+                        ok, why = False, "a value is taken from the result at position %s while the variable was found at position %s" % (
+                            show(key)[:50], show(cur_q)[:50] if cur_q else "?")
+                    if key[0] == "step":
+                        shifts.add(key[2])
+                    else:
+                        shifts.add(None)
+    # positions 1.. in ascending order: every position key is "k-th step + 1" of a forward iteration (a range starting
+    # at 1, or an iterator with skip(1)); reversed / filtered iterations have no position key and fail above
+    start_ok = shifts == {1}
+    ctx.ob("R8", "answer-text-positions", ok and n > 0 and start_ok, ctx.where(FS), why or (
         "each variable of the query is printed with the result term at the same argument position, positions 1.. in ascending order"
-        if start_ok and not rev else "the argument positions are not walked from 1 upwards"))
+        if start_ok else "the argument positions are not walked from 1 upwards (first positions %s)" % sorted(shifts, key=str)))
 
     # ---- R9 / R10: the clauses of other properties that C01's answers depend on ------------------------------------
     # (unification threads the running set through element-wise terms — C06/R4; ids handed to renamed clauses are
